@@ -1,6 +1,8 @@
 import FH.RuleLemmas
 import FH.PtrAuth
 import FH.NoPanic
+import FH.Hist
+import FH.ModuleLemmas
 /-!
 # C09 — Totality on arbitrary runtime state
 
@@ -116,6 +118,132 @@ theorem C09_unwind_frame_a64_never_panics (N : Nat) (u : Unw) (c : Cache archA64
 along every history. -/
 theorem C09_empty_cache_ok : CacheSafeX64 Cache.empty ∧ CacheWFA64 Cache.empty := by
   constructor <;> intro s e h <;> simp [Cache.empty] at h
+
+/-! ## Along every history
+
+The hypotheses of the two whole-call theorems hold in every world a history of operations can
+reach (any number of unwinders sharing the cache, modules added with in-range opcode fields,
+removed, unwinders cloned, any calls in between): an invariant by induction over operations. -/
+
+/-- Modules handed to `add_module` have their Mach-O opcode fields in range. -/
+def HOp.ModsWF {A : Arch} : HOp A → Prop
+  | .add _ m => m.data.WF
+  | _ => True
+
+def WorldWF {A : Arch} (w : HWorld A) : Prop := ∀ u ∈ w.unws, u.WF
+
+theorem hstep_preserves {A : Arch} {N : Nat} (P : Cache A.Rule → Prop)
+    (hP : ∀ u c addr regs mem, Unw.WF u → P c → P (unwindFrame A N u c addr regs mem).1)
+    (w : HWorld A) (op : HOp A) (hw : WorldWF w) (hc : P w.cache) (hop : op.ModsWF) :
+    WorldWF (hstep A N w op).1 ∧ P (hstep A N w op).1.cache := by
+  cases op with
+  | new =>
+    simp only [hstep, drawGen]
+    refine ⟨?_, hc⟩
+    intro u hu
+    simp only [List.mem_append, List.mem_singleton] at hu
+    rcases hu with hu | hu
+    · exact hw u hu
+    · subst hu; intro m hm; cases hm
+  | clone i =>
+    simp only [hstep]
+    cases hi : w.unws[i]? with
+    | none => exact ⟨hw, hc⟩
+    | some u =>
+      refine ⟨?_, hc⟩
+      intro v hv
+      simp only [List.mem_append, List.mem_singleton] at hv
+      rcases hv with hv | hv
+      · exact hw v hv
+      · subst hv; exact hw _ (List.mem_of_getElem? hi)
+  | add i m =>
+    simp only [hstep, drawGen]
+    cases hi : w.unws[i]? with
+    | none => exact ⟨hw, hc⟩
+    | some u =>
+      refine ⟨?_, hc⟩
+      intro v hv
+      rcases List.mem_or_eq_of_mem_set hv with hv | hv
+      · exact hw v hv
+      · subst hv
+        intro x hx
+        have : x ∈ m :: u.mods := (addModule_perm u.mods m).subset hx
+        simp only [List.mem_cons] at this
+        rcases this with rfl | hx'
+        · exact hop
+        · exact hw u (List.mem_of_getElem? hi) x hx'
+  | remove i start =>
+    simp only [hstep, drawGen]
+    cases hi : w.unws[i]? with
+    | none => exact ⟨hw, hc⟩
+    | some u =>
+      simp only []
+      cases hr : removeModule u.mods start with
+      | none => exact ⟨hw, hc⟩
+      | some L =>
+        refine ⟨?_, hc⟩
+        intro v hv
+        rcases List.mem_or_eq_of_mem_set hv with hv | hv
+        · exact hw v hv
+        · subst hv
+          intro x hx
+          unfold removeModule at hr
+          simp only [] at hr
+          split at hr
+          · split at hr
+            · injection hr with hr; subst hr
+              exact hw u (List.mem_of_getElem? hi) x (List.mem_of_mem_eraseIdx hx)
+            · cases hr
+          · cases hr
+  | unwind i addr regs mem =>
+    simp only [hstep]
+    cases hi : w.unws[i]? with
+    | none => exact ⟨hw, hc⟩
+    | some u => exact ⟨hw, hP u w.cache addr regs mem (hw u (List.mem_of_getElem? hi)) hc⟩
+
+theorem hrun_preserves {A : Arch} {N : Nat} (P : Cache A.Rule → Prop)
+    (hP : ∀ u c addr regs mem, Unw.WF u → P c → P (unwindFrame A N u c addr regs mem).1) :
+    ∀ (ops : List (HOp A)) (w : HWorld A), WorldWF w → P w.cache → (∀ op ∈ ops, op.ModsWF) →
+      WorldWF (hrun A N w ops) ∧ P (hrun A N w ops).cache
+  | [], w, hw, hc, _ => ⟨hw, hc⟩
+  | op :: ops, w, hw, hc, hops => by
+    simp only [hrun]
+    have h := hstep_preserves (N := N) P hP w op hw hc (hops op (by simp))
+    exact hrun_preserves P hP ops _ h.1 h.2 (fun o ho => hops o (by simp [ho]))
+
+/-- **C09 along histories (x86-64).** After any history from the initial world, a further call
+by any of the unwinders has a panic outcome only inside the PE operation interpreter. -/
+theorem C09_x64_no_panic_along_histories (N c0 : Nat) (ops : List (HOp archX64))
+    (hops : ∀ op ∈ ops, op.ModsWF) (i : Nat) (u : Unw)
+    (hu : (hrun archX64 N (HWorld.init archX64 c0) ops).unws[i]? = some u)
+    (addr : FrameAddr) (regs : archX64.Regs) (mem : Mem) (s : Site)
+    (h : (unwindFrame archX64 N u (hrun archX64 N (HWorld.init archX64 c0) ops).cache addr regs mem).2
+      = .panic s) :
+    ∃ j rel m p, findModule u.mods addr.lookup = some (j, rel) ∧ u.mods[j]? = some m ∧
+      plan archX64 m rel (!addr.isReturn) = .pe p ∧
+      peRun p (!addr.isReturn) regs mem = .panic s := by
+  have hinv := hrun_preserves (N := N) CacheSafeX64
+    (fun u c addr regs mem hu hc =>
+      (C09_unwind_frame_x64_panics_only_in_pe_interpreter N u c addr regs mem hu hc).1)
+    ops (HWorld.init archX64 c0) (by intro u hu; simp [HWorld.init] at hu)
+    (by intro s e he; simp [HWorld.init, Cache.empty] at he) hops
+  exact (C09_unwind_frame_x64_panics_only_in_pe_interpreter N u _ addr regs mem
+    (hinv.1 u (List.mem_of_getElem? hu)) hinv.2).2 s h
+
+/-- **C09 along histories (aarch64).** No call ever has a panic outcome. -/
+theorem C09_a64_no_panic_along_histories (N c0 : Nat) (ops : List (HOp archA64))
+    (hops : ∀ op ∈ ops, op.ModsWF) (i : Nat) (u : Unw)
+    (hu : (hrun archA64 N (HWorld.init archA64 c0) ops).unws[i]? = some u)
+    (addr : FrameAddr) (regs : archA64.Regs) (mem : Mem) (s : Site) :
+    (unwindFrame archA64 N u (hrun archA64 N (HWorld.init archA64 c0) ops).cache addr regs mem).2
+      ≠ .panic s := by
+  have hinv := hrun_preserves (N := N) CacheWFA64
+    (fun u c addr regs mem hu hc =>
+      (C09_unwind_frame_a64_never_panics N u c addr regs mem hu hc).1)
+    ops (HWorld.init archA64 c0) (by intro u hu; simp [HWorld.init] at hu)
+    (by intro s e he; simp [HWorld.init, Cache.empty] at he) hops
+  exact (C09_unwind_frame_a64_never_panics N u _ addr regs mem
+    (hinv.1 u (List.mem_of_getElem? hu)) hinv.2).2 s
 
 -- Non-vacuity: concrete rules / states meeting the hypotheses.
 example : (RuleX64.offsetSpAndPopRegisters 65535 255 65535).WF := by simp [RuleX64.WF, U16]
